@@ -427,6 +427,10 @@ class Interp:
             return ("unop", "-" if isinstance(v.op, ast.USub) else "+", inner)
         if isinstance(v, ast.Tuple):
             return ("tuple", tuple(self._const_term(mod, e) for e in v.elts))
+        if isinstance(v, ast.Dict):
+            return ("dict", ())
+        if isinstance(v, (ast.List, ast.Set)):
+            return ("list" if isinstance(v, ast.List) else "set", ())
         if isinstance(v, ast.Call) and dotted(v.func) == "float":
             return ("call", ("glob", "ext:builtins.float"), (("const", v.args[0].value),), (), 0)
         if isinstance(v, ast.Call):
